@@ -9,24 +9,36 @@ LEAN_MODULES = ['PydlVerif.Props.C16']
 P = 'PydlVerif.C16.'
 THEOREMS = [P + t for t in (
     'key_injective', 'argsort_perm_inverse', 'argsortImpl_isArgsort', 'specAppend_spec', 'specAppend_nothing_dropped',
-    'normalize_spec', 'readspec_vec', 'readspec_row_i', 'loglam_rows', 'readspec_tables')]
-RULE = ('synthetic survey trees written with astropy.io.fits (3 trees per run: complete / spPlate only / mixed spZbest; 6-9 '
-        'plate-MJD files each, repeated plates with different MJD, pixel counts and fibre counts differing, every cell encoding '
-        '(file, fibre, pixel, hdu)); request vectors in random / sorted / reversed / grouped / interleaved order with repeats, '
-        'vector, scalar, mixed and len-1 calling conventions, mjd given or found by latest_mjd; error requests (length mismatch, '
-        'missing file, fibre outside the plate, fibre <= 0); znum= requests against spZall files (oracle only); spec_append on random and (thorough) all small shapes and shifts. '
+    'normalize_spec', 'readspec_vec', 'readspec_row_i', 'loglam_rows', 'readspec_tables',
+    # extension round: spec_append by sign of the shift / empty blocks, znum=, fiber=None
+    'specAppend_shift_neg', 'specAppend_shift_pos', 'specAppend_empty',
+    'readspecX_plain', 'readspec_znum_transfer', 'readspec_znum_row', 'readspec_row_i_znum', 'loglam_rows_znum',
+    'readspec_tables_znum', 'numberOfFibers_single', 'normalizeAll_single', 'normalizeAll_distinct',
+    'readspec_all_fibers_requests', 'readspec_all_fibers', 'all_fibers_layout', 'readspec_all_fibers_plates')]
+RULE = ('synthetic survey trees written with astropy.io.fits (4 trees per run: complete / spPlate only / mixed spZbest+spZall / '
+        '640-fibre plates before MJD 55025; 3-9 plate-MJD files each, repeated plates with different MJD, pixel counts and fibre '
+        'counts differing, every cell encoding (file, fibre, pixel, hdu); spZall with 2-4 fits per fibre; platelist.fits with the '
+        'row of every file plus rows that must not be picked); request vectors in random / sorted / reversed / grouped / '
+        'interleaved order with repeats, vector, scalar, mixed and len-1 calling conventions, mjd given or found by latest_mjd, '
+        'run1d by keyword or environment; znum= on every convention (fits that exist, and a few that do not); fiber=None for a '
+        'scalar plate, a len-1 vector, several distinct plates, with a scalar MJD, and its error shapes (repeated plate, MJD vector, '
+        'plate without files, N_TOTAL beyond the file); error requests (length mismatch, missing file, fibre outside the plate, '
+        'fibre <= 0); align= (oracle only); spec_append on random shapes and dtypes and on ALL pairs of blocks up to 2x2 (quick) / '
+        '3 rows x 4 pixels (thorough) incl. 0 rows / 0 pixels with shifts -3..3 / -4..4. '
         'A request is non-trivial when it reaches the grouping / reorder code; distinct = distinct (tree, request) payloads')
 TRUSTED = ['hand-written model lean/PydlVerif/Model/SpecOrder.lean tied to the code by the I/O correspondence of this run',
            'astropy.io.fits (writes the synthetic files and reads them inside readspec)',
            'np.argsort returns a sorting permutation (contract IsArgsort, proved for the stand-in used by the driver)',
            'np.unique returns the sorted distinct values (modelled by insertion into a sorted list)']
 ASSUMPTIONS = ['every requested plate-MJD has an spPlate file whose 7 HDUs have NAXIS1 pixels and the same number of rows; '
-               'spZbest (and photoPlate) exist for all requested plate-MJDs or for none',
+               'spZbest (with znum=: spZall) and photoPlate exist for all requested plate-MJDs or for none',
                '1 <= fibre <= number of rows of the plate; 0 <= plate < 10000; 10000 <= MJD < 65536 (mjd < 2^16 is what the key needs)',
-               '`align` unset; `fiber` given (the all-fibres convention fiber=None is outside the statement); `znum=` is not modelled: '
-               'it is checked by the oracle only (row i of zans = fit znum of fibre_i in spZall)',
-               'mjd=None is exercised with RUN1D taken from the environment: readspec forwards run1d= to spec_path(), which '
-               'does not accept it (TypeError, nothing is returned)',
+               'znum=k: spZall has nfib*DIMS0 rows (fibre-major) and 1 <= k <= DIMS0',
+               'fiber=None: the plates are distinct (theorem readspec_all_fibers: one plate; readspec_all_fibers_plates: any number), '
+               'plate vectors are numpy arrays (number_of_fibers needs .shape), number_of_fibers finds a count 1 <= n <= rows of the file '
+               '(640 before MJD 55025, else the first row of platelist.fits for plate, latest MJD, RUN2D, RUN1D); the oracle asks for '
+               'exactly one such row and for the plates in ascending order (np.unique)',
+               '`align` unset (unfinished code, see LEVEL_NOTE; exercised by the oracle only)',
                'spec_append: pixshift is an integer; cells are compared by value (the result has the dtype of spec1)']
 
 IMG_NAMES = ['flux', 'invvar', 'andmask', 'ormask', 'disp', 'sky', 'loglam']   # order of Model.imgHdus
@@ -46,8 +58,47 @@ def tcode(fileno, fiber, tab, col):
     return 1 + col + 16 * (tab + 4 * (fiber + 32 * fileno))
 
 
+def gen_platelist(rng, files, complete):
+    """rows of platelist.fits: one per file under (RUN2D, RUN1D) with N_TOTAL = the number of rows of the file (sometimes
+    one less: only the first fibres are asked for; sometimes more: the plate has no such fibre), and rows that must not be
+    picked (other run2d / run1d, other MJD).  `complete` False: a file may have no row or two rows."""
+    rows = []
+    for f in files:
+        r = rng.random()
+        nt = f['nfib'] if r < 0.7 else max(1, f['nfib'] - 1) if r < 0.9 else f['nfib'] + rng.randint(1, 2)
+        if rng.random() < 0.5:
+            rows.append({'plate': f['plate'], 'mjd': f['mjd'], 'run2d': RUN2D, 'run1d': 'other', 'ntotal': nt + 1})
+        if rng.random() < 0.3:
+            rows.append({'plate': f['plate'], 'mjd': f['mjd'], 'run2d': 'v9', 'run1d': RUN1D, 'ntotal': max(1, nt - 1)})
+        if rng.random() < 0.3:
+            rows.append({'plate': f['plate'], 'mjd': f['mjd'] + 1, 'run2d': RUN2D, 'run1d': RUN1D, 'ntotal': nt + 1})
+        k = 1 if complete or rng.random() < 0.7 else rng.choice([0, 2])
+        for j in range(k):
+            rows.append({'plate': f['plate'], 'mjd': f['mjd'], 'run2d': RUN2D, 'run1d': RUN1D, 'ntotal': max(1, nt - j)})
+    rng.shuffle(rows)
+    return rows
+
+
+def gen_sdss_spec(rng):
+    """kind 'sdss': plates observed before MJD 55025 have 640 fibres (number_of_fibers does not look them up)"""
+    pa, pb = rng.sample(range(1, 10000), 2)
+    ma = rng.sample(range(51000, 55025), 2)
+    files = [[pa, ma[0]], [pb, rng.randint(51000, 55024)], [pa, ma[1]]]
+    rng.shuffle(files)
+    out = []
+    for k, (p, m) in enumerate(files):
+        # 'no' in steps of 32: the cell code stays injective with 640 fibres
+        out.append({'plate': p, 'mjd': m, 'no': 32 * k, 'nfib': 640, 'npix': rng.randint(2, 4),
+                    'c0': float('%.12g' % rng.uniform(3.3, 3.9)), 'c1': float('%.12g' % rng.uniform(5e-5, 3e-4)),
+                    'zbest': True, 'photo': True, 'nper': 2})
+    return {'kind': 'sdss', 'files': out, 'platelist': gen_platelist(rng, out, True) if rng.random() < 0.5 else None}
+
+
 def gen_tree_spec(rng, kind, thorough):
-    """kind: 'full' (spZbest + photoPlate everywhere), 'bare' (spPlate only), 'mixed' (spZbest for some files only)"""
+    """kind: 'full' (spZbest + photoPlate + spZall everywhere), 'bare' (spPlate only), 'mixed' (spZbest / spZall for some
+    files only), 'sdss' (640-fibre plates before MJD 55025)"""
+    if kind == 'sdss':
+        return gen_sdss_spec(rng)
     nplates = rng.randint(3, 4)
     plates = rng.sample(range(1, 10000), nplates)
     if rng.random() < 0.5:
@@ -72,9 +123,9 @@ def gen_tree_spec(rng, kind, thorough):
              'c0': float('%.12g' % rng.choice([3.5, 3.58, rng.uniform(3.3, 3.9), rng.uniform(0.1, 5)])),
              'c1': float('%.12g' % rng.choice([1e-4, 1.0e-4, rng.uniform(5e-5, 3e-4), rng.uniform(-1, 1)])),
              'zbest': kind == 'full' or (kind == 'mixed' and k % 2 == 0),
-             'photo': kind == 'full', 'nper': nper if kind == 'full' else 0}
+             'photo': kind == 'full', 'nper': nper if kind == 'full' or (kind == 'mixed' and k % 3 != 1) else 0}
         out.append(f)
-    return {'kind': kind, 'files': out}
+    return {'kind': kind, 'files': out, 'platelist': None if kind == 'bare' else gen_platelist(rng, out, kind == 'full')}
 
 
 def tree_data(spec):
@@ -151,6 +202,14 @@ def write_tree(spec, top):
         if f['photo']:
             fits.HDUList([fits.PrimaryHDU(), _table_hdu(d['tabs']['tsobj'])]).writeto(
                 os.path.join(top, 'photoPlate-%04d-%05d.fits' % (p, m)))
+    pl = spec.get('platelist')
+    if pl is not None:
+        cols = [fits.Column(name='PLATE', format='J', array=np.array([r['plate'] for r in pl], dtype='i4')),
+                fits.Column(name='MJD', format='J', array=np.array([r['mjd'] for r in pl], dtype='i4')),
+                fits.Column(name='RUN2D', format='8A', array=np.array([r['run2d'] for r in pl], dtype='S8')),
+                fits.Column(name='RUN1D', format='8A', array=np.array([r['run1d'] for r in pl], dtype='S8')),
+                fits.Column(name='N_TOTAL', format='J', array=np.array([r['ntotal'] for r in pl], dtype='i4'))]
+        fits.HDUList([fits.PrimaryHDU(), fits.BinTableHDU.from_columns(cols)]).writeto(os.path.join(top, 'platelist.fits'))
     return data
 
 
@@ -163,7 +222,8 @@ def tree_json(spec, data):
                     'img': [d['img'][h].astype(np.int64).tolist() if h in d['img'] else [] for h in range(7)],
                     'plug': d['tabs']['plug'],
                     'zans': d['tabs']['zans'] if f['zbest'] else None,
-                    'tsobj': d['tabs']['tsobj'] if f['photo'] else None})
+                    'tsobj': d['tabs']['tsobj'] if f['photo'] else None,
+                    'zall': {'nper': d['nper'], 'rows': d['zall']} if d['nper'] else None})
     return out
 
 
@@ -175,6 +235,7 @@ class Tree:
         self.data = write_tree(spec, self.top)
         self.json = tree_json(spec, self.data)
         self.keys = [(f['plate'], f['mjd']) for f in spec['files']]
+        self.platelist = spec.get('platelist')
 
 
 class Env:
@@ -208,15 +269,20 @@ def _arg(v, as_array):
 
 
 def impl_readspec(tree, req):
-    """req: {'plate': int|list, 'mjd': None|int|list, 'fiber': int|list, 'arr': False|'i4'|'i8'}"""
+    """req: {'plate': int|list, 'mjd': None|int|list, 'fiber': None|int|list, 'arr': False|'i4'|'i8', 'znum': int (optional),
+    'run1d_env': True (optional: RUN1D is taken from the environment instead of the keyword)}"""
     from pydl.pydlspec2d.spec1d import readspec
     kw = {'path': tree.top, 'run2d': RUN2D}
-    if req['mjd'] is not None:
-        kw['run1d'] = RUN1D          # with mjd=None the keyword is forwarded to spec_path(), which refuses it
+    if not req.get('run1d_env'):
+        kw['run1d'] = RUN1D
     if req.get('znum') is not None:
         kw['znum'] = req['znum']
+    if req.get('align'):
+        kw['align'] = True
     try:
-        a_plate, a_mjd, a_fiber = _arg(req['plate'], req.get('arr')), _arg(req['mjd'], req.get('arr')), _arg(req['fiber'], req.get('arr'))
+        # fiber=None: plate vectors are arrays (the documented type; a list has no .shape for number_of_fibers)
+        a_plate = _arg(req['plate'], req.get('arr') or ('i4' if req['fiber'] is None else False))
+        a_mjd, a_fiber = _arg(req['mjd'], req.get('arr')), _arg(req['fiber'], req.get('arr'))
         snap = [np.array(v, copy=True) if isinstance(v, np.ndarray) else v for v in (a_plate, a_mjd, a_fiber)]
         r = readspec(a_plate, mjd=a_mjd, fiber=a_fiber, **kw)
         for name, v, w in zip(('plate', 'mjd', 'fiber'), (a_plate, a_mjd, a_fiber), snap):
@@ -246,6 +312,8 @@ def expand(tree, req):
     """request i = (plate_i, mjd_i, fibre_i) as the calling conventions define it; None when outside the statement's domain"""
     def aslist(v):
         return list(v) if isinstance(v, list) else [v]
+    if req['fiber'] is None:
+        return expand_all(tree, req)
     pl, fb = aslist(req['plate']), aslist(req['fiber'])
     if not pl or not fb:
         return None
@@ -279,19 +347,64 @@ def expand(tree, req):
     return out
 
 
-def oracle(tree, req, raw):
-    """returns None or (signature, text)"""
+def expand_all(tree, req):
+    """fiber=None: "all fibers from all plates will be returned" - fibres 1..N of every plate, plates ascending, N = 640
+    before MJD 55025, else N_TOTAL of the plate's row in platelist.fits (latest MJD, RUN2D, RUN1D).  None when outside the domain."""
+    pl = list(req['plate']) if isinstance(req['plate'], list) else [req['plate']]
+    if not pl or len(set(pl)) != len(pl):
+        return None
+    latest = {}
+    for p in pl:
+        ms = [m for (q, m) in tree.keys if q == p]
+        if not ms:
+            return None
+        latest[p] = max(ms)
+    if all(m < 55025 for m in latest.values()):
+        nf = {p: 640 for p in pl}
+    else:
+        if tree.platelist is None:
+            return None
+        nf = {}
+        for p in pl:
+            rows = [r for r in tree.platelist if (r['plate'], r['mjd'], r['run2d'], r['run1d']) == (p, latest[p], RUN2D, RUN1D)]
+            if len(rows) != 1:
+                return None
+            nf[p] = rows[0]['ntotal']
+    if req['mjd'] is None:
+        mj = latest
+    else:
+        m = req['mjd']
+        if len(pl) != 1 or (isinstance(m, list) and len(m) != 1):
+            return None
+        mj = {pl[0]: m[0] if isinstance(m, list) else m}
+    out = []
+    for p in sorted(pl):
+        d = tree.data.get((p, mj[p]))
+        if d is None or not (1 <= nf[p] <= d['spec']['nfib']):
+            return None
+        out.extend((p, mj[p], f) for f in range(1, nf[p] + 1))
+    return out
+
+
+def oracle(tree, req, raw, err=None):
+    """returns None or (signature, text); `err`: the exception kind when readspec raised (raw is None)"""
     reqs = expand(tree, req)
     if reqs is None:
         return None
     n = len(reqs)
     files = [tree.data[(p, m)] for p, m, _ in reqs]
+    znum = req.get('znum')
     for flag in ('zbest', 'photo'):
-        have = [d['spec'][flag] for d in files]
+        # with znum= the redshifts come from spZall (present iff nper > 0), spZbest is not looked at
+        have = [bool(d['nper']) if (flag == 'zbest' and znum is not None) else d['spec'][flag] for d in files]
         if any(have) and not all(have):
-            return None       # mixed availability of spZbest / photoPlate: outside the domain, not judged
+            return None       # mixed availability of spZbest (spZall) / photoPlate: outside the domain, not judged
+    if znum is not None and any(d['nper'] and not (1 <= znum <= d['nper']) for d in files):
+        return None           # there is no znum-th fit
     if raw is None:
-        return ('readspec:exception-on-valid-request', 'readspec raised on a request inside the domain')
+        return ('readspec:exception-on-valid-request' + (':fiber=None' if req['fiber'] is None else '') +
+                (':znum' if znum is not None else '') + (':' + str(err) if err else ''),
+                'readspec raised %s on a request inside the domain' % err)
     if '_argument_modified' in raw:
         return ('readspec:request-array-modified:' + raw['_argument_modified'],
                 'readspec changed the caller\'s %s array in place; the same request repeated with that array returns other rows' % raw['_argument_modified'])
@@ -322,7 +435,7 @@ def oracle(tree, req, raw):
                 return (sig, 'row %d of %s is not row fibre-1=%d of plate %d mjd %d zero-padded to %d: pixel %d is %r, want %r'
                         % (i, name, f - 1, p, m, W, q, got[q], want[q]))
     for tab, key, flag in (('plug', 'plugmap', None), ('zans', 'zans', 'zbest'), ('tsobj', 'tsobj', 'photo')):
-        have = [flag is None or d['spec'][flag] for d in files]
+        have = [flag is None or (bool(d['nper']) if (flag == 'zbest' and znum is not None) else d['spec'][flag]) for d in files]
         if not all(have):
             if key in raw:
                 return ('readspec:table-from-nowhere', '%s returned although no file has it' % key)
@@ -331,6 +444,9 @@ def oracle(tree, req, raw):
             return ('readspec:table-missing', '%s not returned' % key)
         got = table_rows(raw[key])
         want = [d['tabs'][tab][f - 1] for (p, m, f), d in zip(reqs, files)]
+        if req['fiber'] is None and got != want and tab == 'plug':
+            return ('readspec:all-fibers', 'fiber=None: the plug-map rows are fibres %s..., want fibres 1..N of every plate, plates ascending (%d rows)'
+                    % ([g[:2] for g in got[:5]], n))
         if tab == 'zans' and req.get('znum') is not None:
             # "return the znum-th best fit": row (fibre-1)*nper + znum-1 of spZall
             z = req['znum']
@@ -443,6 +559,53 @@ def gen_requests(ctx, tree, count):
                 if n == 1:
                     conv = 'vec'
         r['arr'] = arr
+        if r['mjd'] is None and rng.random() < 0.5:
+            r['run1d_env'] = True         # RUN1D from the environment instead of run1d=
+        nper = max(d['nper'] for d in tree.data.values())
+        if nper and rng.random() < 0.2:
+            # znum=: the znum-th fit of spZall; now and then a fit that does not exist (outside the statement, model follows)
+            r['znum'] = rng.randint(1, nper) if rng.random() < 0.85 else rng.choice([0, -1, nper + 1, nper + 2, -nper, 50])
+            conv += '+znum'
+        out.append((conv, r))
+    return out
+
+
+def gen_all_requests(ctx, tree, count):
+    """fiber=None: all fibres of the given plate(s)"""
+    rng = ctx.rng
+    plates = sorted({p for p, _ in tree.keys})
+    latest = {p: max(m for q, m in tree.keys if q == p) for p in plates}
+    nper = max(d['nper'] for d in tree.data.values())
+    out = []
+    for _ in range(count):
+        sub = rng.choice(['scalar', 'scalar', 'len1', 'vec', 'vec', 'mjd', 'mjd', 'dup', 'mjdvec', 'nofile'])
+        p = rng.choice(plates)
+        arr = rng.choice([False, 'i4', 'i8'])
+        if sub == 'scalar':
+            r = {'plate': p, 'mjd': None}
+        elif sub == 'len1':
+            r = {'plate': [p], 'mjd': None}
+        elif sub == 'vec':          # several distinct plates, any order
+            r = {'plate': rng.sample(plates, rng.randint(2, len(plates))), 'mjd': None}
+        elif sub == 'mjd':          # one plate, MJD given (scalar or len 1): any MJD of the plate; the count is that of the latest
+            m = rng.choice([m for q, m in tree.keys if q == p])
+            r = {'plate': rng.choice([p, [p]]), 'mjd': rng.choice([m, [m]])}
+        elif sub == 'dup':          # a repeated plate: the unfilled part of platevec is plate 0 (no file)
+            r = {'plate': [p, rng.choice(plates), p], 'mjd': None}
+        elif sub == 'mjdvec':       # MJD vector with a plate vector: shapes (total,) and (nplate,) do not broadcast
+            ps = rng.sample(plates, 2)
+            r = {'plate': ps, 'mjd': [latest[q] for q in ps]}
+        else:                       # a plate without files
+            q = next(x for x in range(p + 1, p + 20) if x not in plates)
+            r = {'plate': rng.choice([q, [p, q]]), 'mjd': None}
+        r['fiber'] = None
+        r['arr'] = arr
+        if rng.random() < 0.5:
+            r['run1d_env'] = True
+        conv = 'all-' + sub
+        if nper and rng.random() < 0.25:
+            r['znum'] = rng.randint(1, nper)
+            conv += '+znum'
         out.append((conv, r))
     return out
 
@@ -467,8 +630,10 @@ def _readspec_stream(ctx, tree, reqs, oracle_only=False):
             blk = reqs[i:i + chunk]
             model = [None] * len(blk)
             if not oracle_only:
-                model = core.driver([{'p': 'C16', 'op': 'readspec', 'tree': tree.json,
-                                      'reqs': [{'plate': r['plate'], 'mjd': r['mjd'], 'fiber': r['fiber']} for _, r in blk]}])[0]
+                model = core.driver([{'p': 'C16', 'op': 'readspecx', 'tree': tree.json, 'platelist': tree.platelist,
+                                      'run2d': RUN2D, 'run1d': RUN1D,
+                                      'reqs': [{'plate': r['plate'], 'mjd': r['mjd'], 'fiber': r['fiber'], 'znum': r.get('znum')}
+                                               for _, r in blk]}])[0]
             for (conv, r), m in zip(blk, model):
                 case = {'stream': 'readspec', 'conv': conv, 'tree': tree.spec, 'req': r}
                 impl, raw = impl_readspec(tree, r)
@@ -476,6 +641,8 @@ def _readspec_stream(ctx, tree, reqs, oracle_only=False):
                 ctx.seen(case, nontrivial='ok' in impl)
                 ctx.count('readspec:%s:%s:%s' % (tree.spec['kind'], conv.rstrip('0123456789') if not conv.startswith('bad') else conv,
                                                  'ok' if 'ok' in impl else impl['err']))
+                if r.get('znum') is not None:
+                    ctx.count('readspec:znum=%d:%s' % (r['znum'], 'ok' if 'ok' in impl else impl['err']))
                 if 'ok' in impl:
                     ctx.count('readspec:nfiles=%d' % len({(a, b) for a, b, _ in expand(tree, r)} if inside else ()))
                 if not oracle_only:
@@ -483,7 +650,7 @@ def _readspec_stream(ctx, tree, reqs, oracle_only=False):
                     same = (impl == m) if ('ok' in impl and 'ok' in m) else (('err' in impl) == ('err' in m))
                     if not same:
                         ctx.disagree('readspec', case, _short(impl), _short(m))
-                v = oracle(tree, r, raw)
+                v = oracle(tree, r, raw, impl.get('err'))
                 if v is not None:
                     # shrink only the first case of every failure class (core.finish keeps the smallest per signature)
                     done = ctx.__dict__.setdefault('_c16_shrunk', set())
@@ -491,24 +658,47 @@ def _readspec_stream(ctx, tree, reqs, oracle_only=False):
                     done.add(v[0])
 
 
-def _znum_stream(ctx, tree, count):
-    """oracle only (znum= is not modelled): the znum-th fit of every requested fibre, in request order"""
-    if not all(d['nper'] for d in tree.data.values()):
-        return
-    reqs = [(c, r) for c, r in gen_requests(ctx, tree, count) if c in ('vec', 'vec-arr', 'scalar', 'scalar-plate', 'scalar-fiber', 'len1')]
-    nper = next(iter(tree.data.values()))['nper']
+def _znum_requests(ctx, tree, count):
+    """znum = 1..nper in turn on the ordinary conventions (row i of zans = fit znum of fibre_i)"""
+    nper = max(d['nper'] for d in tree.data.values())
+    if not nper:
+        return []
+    reqs = [(c, r) for c, r in gen_requests(ctx, tree, count) if c in ('vec', 'vec-arr', 'scalar', 'scalar-plate', 'scalar-fiber', 'len1', 'latest')]
+    return [(c + '+znum', dict(r, znum=1 + k % nper)) for k, (c, r) in enumerate(reqs)]
+
+
+def _align_stream(ctx, tree, count):
+    """align= is outside the model (unfinished code: a non-zero shift reaches spec_append as a float and raises TypeError, a
+    single request raises IndexError).  Oracle only, statement level: whatever is returned, row i of every image must be the
+    written row of request i, contiguous at one offset, zeros elsewhere."""
+    reqs = [(c, r) for c, r in gen_requests(ctx, tree, count) if c in ('vec', 'vec-arr', 'scalar-plate', 'scalar-fiber')]
     with Env(tree.top):
-        for k, (conv, r) in enumerate(reqs):
-            r = dict(r, znum=1 + k % nper)
-            case = {'stream': 'readspec', 'conv': conv, 'tree': tree.spec, 'req': r, 'oracle_only': True}
+        for conv, r in reqs:
+            r = dict(r, align=True)
+            r.pop('znum', None)
+            case = {'stream': 'align', 'conv': conv, 'tree': tree.spec, 'req': r, 'oracle_only': True}
             impl, raw = impl_readspec(tree, r)
             ctx.seen(case, nontrivial='ok' in impl)
-            ctx.count('readspec:znum=%d:oracle-only:%s' % (r['znum'], 'ok' if 'ok' in impl else impl['err']))
-            v = oracle(tree, r, raw)
-            if v is not None:
-                done = ctx.__dict__.setdefault('_c16_shrunk', set())
-                ctx.violate(v[0], v[1], _shrink_req(tree, case, v[0]) if v[0] not in done else case)
-                done.add(v[0])
+            ctx.count('readspec:align:oracle-only:%s' % ('ok' if 'ok' in impl else impl['err']))
+            t = expand(tree, r)
+            if raw is None or t is None:
+                continue
+            for name, h in zip(IMG_NAMES[:-1], IMG_HDU):
+                a = np.asarray(raw[name])
+                bad = None
+                if a.shape[0] != len(t):
+                    bad = '%s has %d rows for %d requests' % (name, a.shape[0], len(t))
+                for i, (p, m, f) in enumerate(t):
+                    if bad:
+                        break
+                    want = [float(x) for x in tree.data[(p, m)]['img'][h][f - 1]]
+                    got = [float(x) for x in a[i]]
+                    nz = [q for q, v in enumerate(got) if v != 0.0]
+                    if not nz or got[nz[0]:nz[0] + len(want)] != want or any(got[q] != 0.0 for q in range(nz[0] + len(want), len(got))):
+                        bad = 'align: row %d of %s is not the row of request %s at one offset with zeros elsewhere: %s' % (i, name, (p, m, f), got)
+                if bad:
+                    ctx.violate('readspec:align:row', bad, case)
+                    break
 
 
 def _short(x):
@@ -531,13 +721,17 @@ def _shrink_req(tree, case, sig):
         rr = {'plate': [x[0] for x in sub], 'mjd': [x[1] for x in sub], 'fiber': [x[2] for x in sub], 'arr': r.get('arr')}
         if r.get('znum') is not None:
             rr['znum'] = r['znum']
-        _, raw = impl_readspec(tree, rr)
-        v = oracle(tree, rr, raw)
+        if r.get('run1d_env'):
+            rr['run1d_env'] = True
+        im, raw = impl_readspec(tree, rr)
+        v = oracle(tree, rr, raw, im.get('err'))
         return v is not None and v[0] == sig
     small = core.shrink_list(t, fails, minlen=1)
     small = {'plate': [x[0] for x in small], 'mjd': [x[1] for x in small], 'fiber': [x[2] for x in small], 'arr': r.get('arr')}
     if r.get('znum') is not None:
         small['znum'] = r['znum']
+    if r.get('run1d_env'):
+        small['run1d_env'] = True
     return dict(case, req=small)
 
 
@@ -586,8 +780,14 @@ def _append_cases(ctx):
     rng = ctx.rng
     out = []
     if ctx.tier == 'thorough':
-        for n1, p1, n2, p2 in itertools.product(range(0, 4), repeat=4):
+        # bounded-exhaustive: every pair of blocks up to 3 rows x 4 pixels (0 rows / 0 pixels included), shifts -4..4
+        for n1, p1, n2, p2 in itertools.product(range(0, 4), range(0, 5), range(0, 4), range(0, 5)):
             for ps in range(-4, 5):
+                out.append((n1, p1, n2, p2, ps, 'i4', 'i4', 'exhaustive'))
+    else:
+        # quick: the same family up to 2 x 2 blocks, shifts -3..3
+        for n1, p1, n2, p2 in itertools.product(range(0, 3), repeat=4):
+            for ps in range(-3, 4):
                 out.append((n1, p1, n2, p2, ps, 'i4', 'i4', 'exhaustive'))
     for n1, p1, n2, p2, ps in [(2, 3, 1, 3, 0), (2, 3, 1, 4, 0), (1, 4, 2, 3, 0), (2, 3, 1, 3, 1), (2, 3, 1, 3, -2), (1, 1, 1, 1, 5),
                                (0, 3, 2, 2, 1), (2, 2, 0, 5, -1), (1, 0, 1, 0, 0), (1, 0, 1, 0, 2), (1, 2, 1, 7, -5), (1, 7, 1, 2, 5)]:
@@ -626,6 +826,8 @@ def _append_stream(ctx, cases=None):
             r, impl, exact = None, {'err': core.exc_kind(e)}, False
         ctx.seen(case, nontrivial=n1 + n2 > 0)
         ctx.count('append:%s:%s' % (kind, 'neg' if ps < 0 else 'pos' if ps > 0 else 'zero'))
+        if 0 in (n1, p1, n2, p2):
+            ctx.count('append:empty-block:%s' % ('rows' if 0 in (n1, n2) else 'pixels'))
         if impl != m:
             ctx.disagree('append', case, impl, m)
         W, want = append_oracle(a1, a2, ps)
@@ -642,7 +844,7 @@ def _append_stream(ctx, cases=None):
 def _trees(ctx):
     th = ctx.tier == 'thorough'
     return [Tree(ctx, gen_tree_spec(ctx.rng, kind, th), '%s%d' % (kind, k))
-            for k, kind in enumerate(['full', 'bare', 'mixed'] + (['full', 'bare', 'full'] if th else []))]
+            for k, kind in enumerate(['full', 'bare', 'mixed', 'sdss'] + (['full', 'bare', 'full', 'sdss', 'mixed'] if th else []))]
 
 
 def run(ctx):
@@ -652,10 +854,13 @@ def run(ctx):
     for t in trees:
         ctx.count('tree:%s:files=%d' % (t.spec['kind'], len(t.keys)))
         _latest_stream(ctx, t)
-        n = ctx.n(260, 900) if t.spec["kind"] != "mixed" else ctx.n(60, 300)
+        kind = t.spec['kind']
+        n = {'full': ctx.n(220, 900), 'bare': ctx.n(160, 700), 'mixed': ctx.n(80, 300), 'sdss': ctx.n(40, 200)}[kind]
         _readspec_stream(ctx, t, _directed(t) + gen_requests(ctx, t, n))
-        if t.spec['kind'] == 'full':
-            _znum_stream(ctx, t, ctx.n(60, 250))
+        _readspec_stream(ctx, t, _znum_requests(ctx, t, {'full': ctx.n(60, 250), 'mixed': ctx.n(20, 80)}.get(kind, ctx.n(10, 40))))
+        _readspec_stream(ctx, t, gen_all_requests(ctx, t, {'full': ctx.n(40, 200), 'sdss': ctx.n(12, 60)}.get(kind, ctx.n(20, 80))))
+        if kind in ('full', 'bare'):
+            _align_stream(ctx, t, ctx.n(30, 150))
     if not ok or ctx.disagreements:
         # directed failing-input search on the real code: more oracle-only requests on every tree
         for t in trees:
@@ -673,6 +878,8 @@ def replay(ctx, case):
     elif s == 'readspec':
         t = Tree(ctx, case['tree'], 'replay')
         _readspec_stream(ctx, t, [(case.get('conv', 'replay'), case['req'])], oracle_only=bool(case.get('oracle_only')))
+    elif s == 'align':
+        run(ctx)
     elif s == 'latest':
         t = Tree(ctx, case['tree'], 'replay')
         _latest_stream(ctx, t)
@@ -680,15 +887,25 @@ def replay(ctx, case):
         run(ctx)
 
 
-LEVEL_TEXT = ('Machine-checked Lean 4 theorems over an executable model of readspec\'s grouping / reading / reordering logic and of '
-              'spec_append: for every request vector (any order, repeats, mixtures, scalar or vector conventions) row i of every image '
-              'is row fibre_i-1 of the file of (plate_i, mjd_i), right-padded with zeros to the longest pixel count and never shifted; '
-              'table rows likewise; loglam row i is COEFF0+COEFF1*p on that plate\'s pixels; spec_append places every cell exactly once, '
-              'shifted by the requested amount, zeros elsewhere - proved by induction for arbitrary lengths and for any sorting '
+LEVEL_TEXT = ('Machine-checked Lean 4 theorems over an executable model of readspec\'s calling conventions (incl. fiber=None via '
+              'number_of_fibers), grouping / reading / reordering logic (incl. znum=) and of spec_append: for every request vector '
+              '(any order, repeats, mixtures, scalar or vector conventions) row i of every image is row fibre_i-1 of the file of '
+              '(plate_i, mjd_i), right-padded with zeros to the longest pixel count and never shifted; table rows likewise; with '
+              'znum=k row i of zans is fit k of fibre_i (spZall row (fibre_i-1)*nper+k-1) and everything else is unchanged; with '
+              'fiber=None the rows are fibres 1..n of the plate in order; loglam row i is COEFF0+COEFF1*p on that plate\'s pixels; '
+              'spec_append places every cell exactly once, shifted right by |pixshift| (spec1 for a negative, spec2 for a positive '
+              'shift), zeros elsewhere, empty blocks included - proved by induction for arbitrary lengths and for any sorting '
               'permutation argsort may return. The model is tied to the code on every run by I/O correspondence on generated FITS '
-              'survey trees and an independent oracle that compares every returned cell with the arrays that were written.')
+              'survey trees (every convention above is compared with the model, not only judged by the oracle) and an independent '
+              'oracle that compares every returned cell with the arrays that were written.')
 LEVEL_NOTE = ('Trusted: Lean kernel, axioms propext/Classical.choice/Quot.sound at most, the hand-written model (validated only by the '
-              'correspondence sample), astropy.io.fits, the argsort / unique contracts. Outside the statement (modelled and compared '
-              'only, oracle only, or not exercised): align=, znum= (oracle only), fiber=None, mixed availability of spZbest/photoPlate (readspec raises), '
-              'fibre <= 0 (numpy index wrap), plates >= 10000. File-system lookup (glob, file names) is modelled as a function and '
-              'checked by correspondence only.')
+              'correspondence sample), astropy.io.fits, the argsort / unique contracts. Outside the statement: align= (unfinished code: '
+              'the shift reaches spec_append as a float, so any real alignment raises TypeError, a single request raises IndexError; '
+              'not modelled, oracle-only stream: whatever is returned must still be the requested rows); modelled and compared but not '
+              'covered by a theorem: mixed availability of spZbest/spZall/photoPlate (readspec raises at the reorder step), fibre <= 0 and '
+              'znum outside 1..nper (numpy index wrap), fiber=None with repeated plates or an MJD vector (raises), plates >= 10000. '
+              'fiber=None: readspec_all_fibers states the rows outright for one plate; for several distinct plates '
+              'readspec_all_fibers_plates proves the request vector, its layout and the Domain hypothesis of the row theorems. That readspec leaves the caller\'s request arrays '
+              'unmodified (idempotent arguments) is an aliasing fact outside a pure model: checked by the harness only (second call '
+              'with the same arrays). File-system lookup (glob, file names, platelist.fits columns) is modelled as functions / lists '
+              'and checked by correspondence only.')
